@@ -11,6 +11,8 @@ CONSTANTS
   PenaltySet = {1}
   KSet = {1, 2}
   PreSet = {0}
+  PostSet = {0}
+  TransOn = FALSE
   MaxH = 4
 INIT Init
 NEXT NextMC
@@ -18,5 +20,5 @@ SYMMETRY Sym
 VIEW View
 CONSTRAINT Bound
 INVARIANTS TypeOK InvC10 OnTime BoundedTermination
-PROPERTIES Status Attempt NoEarlyTimeout ExactTimeout NewAttempt Success Timeout Penalty Signed Callback
+PROPERTIES Status Attempt NoEarlyTimeout ExactTimeout NewAttempt Success Timeout Penalty Signed Callback TransitionStep
 CHECK_DEADLOCK FALSE
